@@ -156,6 +156,24 @@ Theorem C11_nesting_bound_in_range :
 Proof. exact max_value_depth_in_range. Qed.
 Print Assumptions C11_nesting_bound_in_range.
 
+(* the guard of the code (gen/BclDepthGen.pop_value_guard: `ww.depth >= maxValueDepth` as a GoExpr term, read on every
+   run) decides as the model's pop_value does at the depths around the constant, and the model parses exactly
+   maxValueDepth nested brackets and answers one more with the nesting diagnostic at that bracket *)
+Theorem C11_nesting_guard_is_the_code :
+  forallb (fun d => Bool.eqb (too_deep_at (pop_value 4 d (mkW [lb 0; rb 1] None)) 0) (guard_at d))
+    [0; 1; max_value_depth - 2; max_value_depth - 1; max_value_depth; max_value_depth + 1; max_value_depth + 2; 2 * max_value_depth]%N = true /\
+  guard_at (max_value_depth - 1) = false /\ guard_at max_value_depth = true.
+Proof. exact pop_value_guard_agrees. Qed.
+Print Assumptions C11_nesting_guard_is_the_code.
+
+Theorem C11_model_at_the_nesting_bound :
+  let n := N.to_nat max_value_depth in
+  parse_summary true (nest_src n) = Some (true, []) /\
+  parse_summary true (nest_src (S n)) =
+    Some (false, [((0, 4 + Z.of_N max_value_depth), (0, 4 + Z.of_N max_value_depth))%Z]).
+Proof. exact max_value_depth_boundary. Qed.
+Print Assumptions C11_model_at_the_nesting_bound.
+
 (* the byte-level entry point is the rune-level one after []rune(input) *)
 Theorem C11_parse_file_is_parse_runes : forall input ff,
   parse_file input ff = parse_runes ff (utf8_decode input).
